@@ -240,6 +240,8 @@ def evolving_scenarios(ctx, out):
 
         def populate(k):
             live = [o for o in objs if o not in dead]
+            if not live:
+                return
             for _ in range(k):
                 o = rng.choice(live)
                 feats = [f for f in o.eClass.eAllStructuralFeatures() if isinstance(f, E.EReference)]
